@@ -458,6 +458,18 @@ func ruleNNumConv(c *engine.Context) *report.Rule {
 				if !strings.HasPrefix(name, "Parse") && name != "Atoi" {
 					continue
 				}
+				// conversions of path numbers: the helper yields an int or a float64 (index, slice bound,
+				// number literal); strconv used for other purposes (escape decoding, …) is not this rule's business
+				yieldsNumber := p.FuncIsGenerated(fn)
+				res := fn.Signature.Results()
+				for i := 0; i < res.Len(); i++ {
+					if isBasicKind(res.At(i).Type(), types.Int) || isBasicKind(res.At(i).Type(), types.Float64) {
+						yieldsNumber = true
+					}
+				}
+				if !yieldsNumber {
+					continue
+				}
 				r.Instances++
 				ok2, why := true, ""
 				switch name {
